@@ -411,6 +411,12 @@ func (b *Builder) structHash(t *types.Struct) (ret []byte, pkg string) {
 		}
 		ft, _ := b.TypeName(f.Type())
 		fmt.Fprintln(h, name, ft)
+		if tag := t.Tag(i); tag != "" {
+			// The tag is part of a struct type's identity. It goes on a line of
+			// its own (no field line starts with a tab), hex-encoded so that it
+			// cannot disturb the line structure.
+			fmt.Fprintf(h, "\t%x\n", tag)
+		}
 	}
 	ret = h.Sum(b.buf[:0])
 	return
